@@ -305,7 +305,7 @@ func c14Stop(c *core.Ctx) {
 						return false
 					}
 					p, isParam := cc.Value.(*ssa.Parameter)
-					return isParam && p.Name() == "cancel"
+					return isParam && len(fn.Params) > 2 && p == fn.Params[2]
 				}}).From(start, nil)
 			if retNoCancel != nil {
 				ok = false
